@@ -41,7 +41,7 @@ def main():
     # scratch repo at /repo's HEAD
     if not os.path.isdir(repo_wt):
         sh("git -C /repo worktree add --detach %s HEAD" % repo_wt)
-    sh("git checkout -q -- . && git clean -fdq -e rust/target -e rust/Cargo.lock && git checkout -q --detach $(git -C /repo rev-parse HEAD)", cwd=repo_wt)
+    sh("git checkout -q -- . && git clean -fdq -e rust/target -e rust/Cargo.lock && git checkout -q --detach %s" % os.environ.get("EVAL_REPO_REV", "$(git -C /repo rev-parse HEAD)"), cwd=repo_wt)
     sh("cp -n /repo/rust/Cargo.lock %s/rust/Cargo.lock" % repo_wt)
     res["repo_head"] = sh("git rev-parse --short HEAD", cwd=repo_wt)[1].strip()
     rc, out = sh("git apply --whitespace=nowarn %s/patch.diff" % d, cwd=repo_wt)
@@ -70,7 +70,7 @@ def main():
     # scratch verif at /verif's committed HEAD
     if not os.path.isdir(verif_wt):
         sh("git -C /verif worktree add --detach %s HEAD" % verif_wt)
-    sh("git checkout -q -- . ; git checkout -q --detach $(git -C /verif rev-parse HEAD)", cwd=verif_wt)
+    sh("git checkout -q -- . ; git checkout -q --detach %s" % os.environ.get("EVAL_VERIF_REV", "$(git -C /verif rev-parse HEAD)"), cwd=verif_wt)
     sh("ln -sfn %s %s/repo" % (repo_wt, verif_wt))
     res["verif_head"] = sh("git rev-parse --short HEAD", cwd=verif_wt)[1].strip()
     res.setdefault("checks", {})
